@@ -44,6 +44,8 @@ import (
 	"os/exec"
 	"path/filepath"
 	"strings"
+	"syscall"
+	"time"
 
 	"github.com/apmckinlay/gsuneido/core"
 	"github.com/apmckinlay/gsuneido/db19"
@@ -582,6 +584,8 @@ func executorMain(jobFile string) {
 
 // ---------------------------------------------------------------- parent side
 
+const hangTimeout = 90 * time.Second
+
 var batch = envInt("VERIF_C05_BATCH", 1500) // cases per executor process (every open maps 64 MiB that is never unmapped)
 
 type runner struct {
@@ -613,22 +617,44 @@ func (r *runner) runBatch(wl *workload, cases []caseID) {
 		}
 		pw.Close()
 		started, done := -1, -1
-		sc := bufio.NewScanner(pr)
-		sc.Buffer(make([]byte, 1<<20), 1<<24)
-		for sc.Scan() {
-			line := sc.Text()
-			var i int
-			if strings.HasPrefix(line, "S ") {
-				fmt.Sscanf(line, "S %d", &i)
-				started = i
-			} else if strings.HasPrefix(line, "R ") {
-				rest := line[2:]
-				sp := strings.IndexByte(rest, ' ')
-				fmt.Sscanf(rest[:sp], "%d", &i)
-				var v verdict
-				json.Unmarshal([]byte(rest[sp+1:]), &v)
-				done = i
-				r.account(cases[i], v)
+		lines := make(chan string, 64)
+		go func() {
+			sc := bufio.NewScanner(pr)
+			sc.Buffer(make([]byte, 1<<20), 1<<24)
+			for sc.Scan() {
+				lines <- sc.Text()
+			}
+			close(lines)
+		}()
+		hung := false
+	read:
+		for {
+			select {
+			case line, ok := <-lines:
+				if !ok {
+					break read
+				}
+				var i int
+				if strings.HasPrefix(line, "S ") {
+					fmt.Sscanf(line, "S %d", &i)
+					started = i
+				} else if strings.HasPrefix(line, "R ") {
+					rest := line[2:]
+					sp := strings.IndexByte(rest, ' ')
+					fmt.Sscanf(rest[:sp], "%d", &i)
+					var v verdict
+					json.Unmarshal([]byte(rest[sp+1:]), &v)
+					done = i
+					r.account(cases[i], v)
+				}
+			case <-time.After(hangTimeout):
+				// no progress for a very long time (a case takes milliseconds):
+				// the recovery sequence hangs; get the goroutine dump and go on
+				hung = true
+				cmd.Process.Signal(syscall.SIGQUIT)
+				time.Sleep(2 * time.Second)
+				cmd.Process.Kill()
+				break read
 			}
 		}
 		pr.Close()
@@ -636,6 +662,12 @@ func (r *runner) runBatch(wl *workload, cases []caseID) {
 		os.Remove(jobFile)
 		if done == len(cases)-1 {
 			return
+		}
+		if hung && started > done {
+			r.account(cases[started], verdict{Msg: fmt.Sprintf("the recovery sequence did not terminate within %v; goroutine dump: %s",
+				hangTimeout, tailStr(stderr.String(), 6000))})
+			cases = cases[started+1:]
+			continue
 		}
 		// the executor died
 		if started <= done {
